@@ -10,7 +10,7 @@ that wrote it.  DESIGN.md section 4 / C12.
 import copy
 import glob as _glob
 
-from .. import etsim, iosim, seams_fs
+from .. import etsim, iosim, seams_fs, seams_h5
 from ..digest import Trace, digest
 
 PROP = 'C12'
@@ -34,13 +34,19 @@ PROBES = ['served_from_partial_cache', 'tensor_after_component',
           'uncached_after_cached', 'overlap_iteration_served',
           'level1_read', 'explicit_restart_read', 'all_vars_read',
           'cross_restart_read', 'grouped_layout', 'per_proc_layout',
-          'enum_permuted', 'deep_level_hierarchy']
+          'enum_permuted', 'deep_level_hierarchy', 'io_fault_fired',
+          'io_fault_raise_accepted', 'read_after_failed_read',
+          'io_fault:create', 'io_fault:open_r', 'io_fault:open_w']
 COMPONENTS = {
     'aurel.reading.read_data/read_ET_data/read_aurel_data/save_data/'
     'read_ET_variables/join_chunks/iterations/get_content': 'real',
     'h5py + tmpfs directory (ET files and all_iterations cache)': 'real',
     'Einstein Toolkit / Carpet writer': 'stub (etsim model, real HDF5 files)',
     'glob/listdir order': 'simulated (seeded permutation)',
+    'I/O errors (ENOSPC at create_dataset, EIO/EACCES at open)': 'simulated: '
+    'aurel.reading.h5py rebound to a counting proxy that fails the n-th call '
+    'of one kind in ~10% of the calls of 30% of the runs; the failed call '
+    'may raise, every later call and every cache dataset must be right',
     'set/dict order': 'real, 3 PYTHONHASHSEED classes'}
 ASSUMPTIONS = [
     'only variables that exist in the simulation are requested',
@@ -54,6 +60,8 @@ def generate(rng, tier):
     cfg = etsim.gen_config(rng, decomp_classes=('tensor', 'hier'), max_P=8,
                            max_restarts=3, mixed_grouping_p=0.0, min_its=2,
                            deep_levels_p=0.05)
+    gf = rng.child('iofaults')
+    io_faults = gf.chance(0.3)
     g = rng.child('ops')
     enum = {'mode': g.pick(['sorted', 'reverse', 'shuffle']),
             'seed': g.randrange(1 << 30)}
@@ -94,9 +102,17 @@ def generate(rng, tier):
         restart = g.randrange(nres) if g.chance(0.12) else -1
         ops.append({'op': 'read', 'it': it, 'vars': vs, 'rl': rl,
                     'restart': restart, 'split': g.chance(0.8)})
+        if io_faults and k < nops - 1 and gf.chance(0.4):
+            ops[-1]['fault'] = seams_h5.gen_fault(
+                gf, ('create', 'create', 'open_r', 'open_r', 'open_w'),
+                max_at=12)
+            ops[-1]['fault']['at'] = gf.weighted(
+                [(1, 3), (2, 3), (3, 3), (4, 2), (5, 2), (7, 2), (10, 1),
+                 (15, 1)])
     if not ops:
         ops = [{'op': 'read', 'it': [0], 'vars': [], 'rl': 0, 'restart': -1,
                 'split': True}]
+    cfg['io_faults'] = io_faults
     return {'config': cfg, 'enum': enum, 'ops': ops}
 
 
@@ -109,6 +125,11 @@ def simplify(run):
     for c in C11.simplify(run):
         yield c
     for i, o in enumerate(run['ops']):
+        if o.get('fault'):
+            c = copy.deepcopy(run); del c['ops'][i]['fault']; yield c
+            if o['fault']['at'] > 1:
+                c = copy.deepcopy(run); c['ops'][i]['fault']['at'] -= 1
+                yield c
         if not o['split']:
             continue
         if o['restart'] != -1:
@@ -116,6 +137,11 @@ def simplify(run):
 
 
 def execute(run):
+    with seams_h5.h5_faults() as plan:
+        return _execute(run, plan)
+
+
+def _execute(run, plan):
     import h5py
     import aurel
     cfg = run['config']
@@ -147,6 +173,7 @@ def execute(run):
     seen_tensor_comp = set()
     seen_comp = set()
     last_split = None
+    failed_before = False
     with seams_fs.enumeration_order(run['enum']['mode'],
                                     run['enum']['seed']) as order:
         for opi, op in enumerate(run['ops']):
@@ -158,11 +185,36 @@ def execute(run):
                           skip_last=False)
             before = digest(kwargs)
             exp = iosim.expected_read(sim, cfg, vis, op)
+            plan.arm(op.get('fault'))
+            fired = None
             try:
                 got = aurel.read_data(param, **kwargs)
+                fired = plan.disarm()
             except Exception as e:  # noqa: BLE001
+                fired = plan.disarm()
                 name, site = type(e).__name__, iosim.aurel_site(e)
-                tr.event('read', op=op, outcome=name, site=site)
+                tr.event('read', op=op, outcome=name, site=site,
+                         fired=(fired or {}).get('what'))
+                if fired is not None:
+                    # the injected I/O error surfaced: the call promises
+                    # nothing, but what it left in the cache is audited and
+                    # every later call must still be right
+                    fault('io_fault_fired')
+                    fault('io_fault:' + fired['kind'])
+                    probe('io_fault_raise_accepted')
+                    failed_before = True
+                    n = iosim.audit_cache(sim, cfg, h5py, _glob, viol, opi)
+                    audited += n
+                    probe('cache_datasets_audited', n)
+                    continue
+                if failed_before:
+                    # after an I/O error a call may lose data or raise; it
+                    # must not return wrong data or poison the cache
+                    probe('degraded_after_fault:raised')
+                    n = iosim.audit_cache(sim, cfg, h5py, _glob, viol, opi)
+                    audited += n
+                    probe('cache_datasets_audited', n)
+                    continue
                 if exp['absent'] and (not exp['chosen'] or (
                         name == 'ValueError'
                         and site == 'read_ET_group_or_var')):
@@ -176,6 +228,15 @@ def execute(run):
                            f'{name}: {e}'})
                 break
             tr.event('read', op=op, result=digest(got))
+            if failed_before:
+                probe('read_after_failed_read')
+            if fired is not None:
+                # the library carried on after the error (iterations() does):
+                # this call and the later ones may have lost data
+                fault('io_fault_fired')
+                fault('io_fault:' + fired['kind'])
+                probe('io_fault_swallowed')
+                failed_before = True
             if digest(kwargs) != before:
                 viol.append({'sig': 'args_mutated:read_data', 'op': opi,
                              'msg': f'op#{opi} read_data changed its '
@@ -214,9 +275,12 @@ def execute(run):
             if any(len(sim.truth.get((ev, i, op['rl']), [])) > 1
                    for _, ev in exp['comps'] for i in exp['exp_its']):
                 fault('overlap_iteration_served')
+            lossy = [] if failed_before else None
             compared += iosim.check_returned(
                 sim, cfg, op, opi, got, exp, viol,
-                tag=':split' if op['split'] else ':nosplit')
+                tag=':split' if op['split'] else ':nosplit', lossy=lossy)
+            for what in sorted(set(lossy or [])):
+                probe('degraded_after_fault:' + what)
             if op['split']:
                 cached |= keyset
             last_split = op['split']
